@@ -284,3 +284,15 @@ Proof. intros Hm Ho. exact (proj2 (proj2 (proj2 (mapped_ops_eq bs m ops Hm Ho)))
 Lemma mapped_op_indices bs m ops :
   try_from_bytes bs = Ok m -> from_bytes bs = Ok ops -> mp_indices m = offsets 0 ops.
 Proof. intros Hm Ho. exact (proj1 (proj2 (mapped_ops_eq bs m ops Hm Ho))). Qed.
+
+(* --- mapping the concatenation of two serialised programs is the mapped form of the concatenation --- *)
+Lemma mapped_concat a b :
+  Forall well_formed_op a -> Forall well_formed_op b ->
+  try_from_bytes (to_bytes a ++ to_bytes b) = Ok (mapped_of_ops (a ++ b)) /\
+  mapped_ops (mapped_of_ops (a ++ b)) = Ok (a ++ b).
+Proof.
+  intros Ha Hb. assert (H : Forall well_formed_op (a ++ b)) by (apply Forall_app; split; assumption).
+  rewrite <- to_bytes_app. split.
+  - exact (proj2 (proj2 (from_iter_bytes (a ++ b) H))).
+  - exact (proj1 (from_iter_ops (a ++ b) H)).
+Qed.
